@@ -405,20 +405,26 @@ static void run_uv(void) {
     else if (!strcmp(op, "evq")) {
       /* rational point num/den (K = Z only) */
       lp_integer_t a, b; mpz_init_set_str(&a, vtok[k + 2], 10); mpz_init_set_str(&b, vtok[k + 3], 10);
-      lp_rational_t x, v; lp_rational_construct_from_div(&x, &a, &b); lp_rational_construct(&v);
+      /* the output is a PRE-USED object: it keeps the result of the previous evaluation of this process (first: 5/8) */
+      static lp_rational_t v; static int v_live = 0;
+      if (!v_live) { lp_rational_construct_from_int(&v, 5, 8); v_live = 1; }
+      lp_rational_t x; lp_rational_construct_from_div(&x, &a, &b);
       lp_upolynomial_evaluate_at_rational(U[IDX(1)], &x, &v);
       printf("="); print_z(mpq_numref(&v)); putchar('/'); print_z(mpq_denref(&v));
-      lp_rational_destruct(&x); lp_rational_destruct(&v); mpz_clear(&a); mpz_clear(&b); k += 4;
+      lp_rational_destruct(&x); mpz_clear(&a); mpz_clear(&b); k += 4;
     }
     else if (!strcmp(op, "evd")) {
       /* dyadic point a/2^n (K = Z only) */
       lp_integer_t a; mpz_init_set_str(&a, vtok[k + 2], 10);
-      lp_dyadic_rational_t x, v; lp_dyadic_rational_construct_from_integer(&x, &a);
+      /* the output is a PRE-USED object: it keeps the result of the previous evaluation of this process (first: 5/8),
+         so a proper dyadic fraction is regularly followed by an integer result in the same object and vice versa */
+      static lp_dyadic_rational_t v; static int v_live = 0;
+      if (!v_live) { lp_dyadic_rational_construct_from_int(&v, 5, 3); v_live = 1; }
+      lp_dyadic_rational_t x; lp_dyadic_rational_construct_from_integer(&x, &a);
       lp_dyadic_rational_div_2exp(&x, &x, strtoul(vtok[k + 3], NULL, 10));
-      lp_dyadic_rational_construct(&v);
       lp_upolynomial_evaluate_at_dyadic_rational(U[IDX(1)], &x, &v);
       printf("="); print_z(&v.a); printf("/%lu", v.n);
-      lp_dyadic_rational_destruct(&x); lp_dyadic_rational_destruct(&v); mpz_clear(&a); k += 4;
+      lp_dyadic_rational_destruct(&x); mpz_clear(&a); k += 4;
     }
     else if (!strcmp(op, "topoly")) {
       /* univariate -> multivariate (variable x<j>) -> univariate */
